@@ -27,6 +27,7 @@ from xdis.cross_dis import (
     findlabels,
     findlinestarts,
     findlinestarts_pre36,
+    findlinestarts_pre38,
     get_jump_target_maps,
 )
 from xdis.version_info import IS_PYPY, PYTHON_VERSION_TRIPLE
@@ -123,6 +124,8 @@ def init_opdata(loc, from_mod, version_tuple=None, is_pypy=False):
     loc["HAVE_ARGUMENT"] = HAVE_ARGUMENT
     if version_tuple is not None and version_tuple < (3, 6):
         loc["findlinestarts"] = findlinestarts_pre36
+    elif version_tuple is not None and version_tuple < (3, 8):
+        loc["findlinestarts"] = findlinestarts_pre38
     else:
         loc["findlinestarts"] = findlinestarts
     if version_tuple is None or version_tuple <= (3, 5):
